@@ -38,6 +38,13 @@ fn doc_sets(tier: Tier) -> Vec<Vec<(&'static str, DocForm)>> {
         vec![("", Comment), ("  x", Comment)],
         vec![(" é", Comment), ("b", Attr), (" c", Comment)],
         vec![(" 1", Comment), ("", Comment), ("  3", Attr), ("4", Comment)],
+        // first character is whitespace but not a space: only a SPACE is stripped
+        vec![("\tx", Attr)],
+        vec![("\u{a0}y", Attr), (" z", Comment)],
+        // doc attributes that are not documentation text, before / between / after the comments
+        vec![("hidden", Marker), (" a", Comment), (" b", Comment)],
+        vec![(" a", Comment), ("alias = \"x\"", Marker), (" b", Comment)],
+        vec![("hidden", Marker)],
     ];
     if tier == Tier::Thorough {
         v.extend(vec![
@@ -183,7 +190,7 @@ pub fn check(ctx: &mut Ctx, obs: Vec<(usize, Option<String>, Option<String>, Opt
                     ctx.outcome("detail-fallback");
                 }
             }
-            match v.docs.len() {
+            match v.docs.iter().filter(|(_, f)| *f != DocForm::Marker).count() {
                 0 => {}
                 1 => ctx.outcome("doc-single"),
                 _ => ctx.outcome("doc-multi"),
